@@ -150,7 +150,8 @@ def discrepancies(exp: dict, obs: dict) -> list[str]:
 
 def features(req: dict) -> dict:
     fs = req["desc"]["funcs"]
-    return {"mapped": any(f["has_ms"] and f["ms"]["ins"] for f in fs), "cleanup": req["cfg"]["cleanup"],
+    return {"mapped": any(f["has_ms"] and f["ms"]["ins"] for f in fs), "internal_shape": any(f["internal"] for f in fs),
+            "cleanup": req["cfg"]["cleanup"],
             "folder": req["cfg"]["folder"], "storage_known": req["cfg"]["storage"] in ("dict", "file_array",
                                                                                         "shared_memory_dict")}
 
